@@ -42,6 +42,11 @@ type (
 		Body   SExpr
 	}
 	SCond struct{ C, A, B SExpr }
+	STypeAssert struct { // x.(T): the value held by an interface; TypeIs(x, T): its dynamic type is T
+		X    SExpr
+		Ty   *STy
+		Test bool
+	}
 	SHash struct{ Name string } // #i : completed iterations of the range loop
 )
 
@@ -307,6 +312,13 @@ func (p *sparser) postfix() SExpr {
 		switch {
 		case p.isOp("."):
 			p.next()
+			if p.isOp("(") {
+				p.next()
+				ty := p.ty()
+				p.expectOp(")")
+				x = &STypeAssert{x, ty, false}
+				continue
+			}
 			t := p.next()
 			if t.k != "id" {
 				panic("expected field name after '.' in " + p.src)
@@ -347,6 +359,14 @@ func (p *sparser) postfix() SExpr {
 				panic("call of non-identifier in " + p.src)
 			}
 			p.next()
+			if id.Name == "TypeIs" {
+				a := p.expr()
+				p.expectOp(",")
+				ty := p.ty()
+				p.expectOp(")")
+				x = &STypeAssert{a, ty, true}
+				continue
+			}
 			var args []SExpr
 			for !p.isOp(")") {
 				args = append(args, p.expr())
@@ -512,6 +532,7 @@ type Contract struct {
 	Asserts  map[int][]Clause
 	After    map[string][]Clause // "callee#k" -> lemmas proved (then assumed) right after that call
 	Before   map[string][]Clause // "callee#k" -> assertions proved right before that call
+	AtReturn []Clause            // assertions over the locals, proved at every return of the function
 }
 
 type SpecFunc struct {
@@ -675,6 +696,14 @@ func (ss *SpecSet) parseContractLines(lines []string, pkgPath, file string) erro
 				cur.NoInline = true
 			case "loop", "assert":
 				f := strings.Fields(rest)
+				if kw == "assert" && len(f) >= 2 && f[0] == "return" {
+					c, err := mk(strings.TrimSpace(strings.TrimPrefix(rest, "return")))
+					if err != nil {
+						return err
+					}
+					cur.AtReturn = append(cur.AtReturn, c)
+					break
+				}
 				if kw == "assert" && len(f) >= 3 && f[0] == "before" {
 					key := strings.TrimSuffix(f[1], ":")
 					body := strings.TrimSpace(strings.TrimPrefix(strings.TrimSpace(strings.TrimPrefix(rest, "before")), f[1]))
